@@ -415,7 +415,7 @@ class Recompile(Contract):
             return ("C06", "C11")
         if "pipeline-as-documented" in name:
             # the compiled function depends on the text only THROUGH the syntax tree: also what makes trivia meaningless (C08)
-            return ("C14", "C09", "C13", "C07", "C08")
+            return ("C14", "C09", "C13", "C07", "C08", "C02", "C03", "C05", "C10", "C12", "C15")      # every property about what the compiled experiment DOES
         if name.startswith("ensures.switches-completely") or name.startswith("ensures.no-op") or name.startswith("ensures.invariant"):
             # the evaluator runs the text it was last given: every property about "the experiment's behaviour" relies on it
             return ("C11", "C01", "C02", "C05", "C08", "C09", "C12", "C03", "C07", "C10", "C13", "C14", "C15")
